@@ -46,6 +46,7 @@ pub fn structural_alphabet() -> Alphabet {
             chardata_extra: 0,
             chardata_full: true,
             attach_only: false,
+                attr_names: &[],
     }
 }
 
@@ -68,6 +69,7 @@ impl Check for C12C {
             frontier,
             expand: stage != format!("bfs{}", depth - 1),
             order_queries: &[],
+            warm_queries: &[],
         })
     }
     fn meta(&self) -> Meta {
